@@ -202,22 +202,73 @@ def guarded_on_all_paths(occurrences, cond_pred):
 
 
 def try_ok_of(path, upto):
-    """Map call id -> 'ok'/'err' as established by `?` (Try::branch discriminant tests) before index upto."""
+    """Map call id -> 'ok'/'err' as established before index upto by `?` (a switch on Try::branch of the call's
+    result, possibly through map_err) or by an explicit `match` on the call's Result."""
     out = {}
     branch_of = {}
+    mapped = {}
     for e in path.events[:upto]:
+        if e['kind'] == 'call' and e['res'] == 'core::result::Result::map_err' and e['args'] and e['args'][0][0] == 'call':
+            mapped[e['id']] = mapped.get(e['args'][0][1], e['args'][0][1])
         if e['kind'] == 'call' and e['decl'].endswith('Try::branch') and e['args'] and e['args'][0][0] == 'call':
-            branch_of[e['id']] = e['args'][0][1]
+            src = e['args'][0][1]
+            branch_of[e['id']] = src
+            if src in mapped:
+                branch_of[('m', e['id'])] = mapped[src]
         if e['kind'] == 'cond' and e['expr'][0] == 'discr' and e['expr'][1][0] == 'call':
             cid = e['expr'][1][1]
             if cid in branch_of:
-                out[branch_of[cid]] = 'ok' if e['taken'] == '0' else 'err'
+                tk = e['taken']
+                if tk == 'otherwise':
+                    left = [d for d in ('0', '1') if d not in (e.get('values') or [])]
+                    tk = left[0] if len(left) == 1 else '1'
+                verdict = 'ok' if tk == '0' else 'err'
+                out[branch_of[cid]] = verdict
+                if ('m', cid) in branch_of:
+                    out[branch_of[('m', cid)]] = verdict
+            elif str(e['expr'][2]).startswith('core::result::Result'):
+                if e['taken'] == 'otherwise':
+                    left = [d for d in ('0', '1') if d not in (e.get('values') or [])]
+                    taken = left[0] if len(left) == 1 else None
+                else:
+                    taken = e['taken']
+                if taken in ('0', '1'):
+                    out[cid] = 'ok' if taken == '0' else 'err'
+                    if cid in mapped:
+                        out[mapped[cid]] = out[cid]
     return out
 
 
 def path_is_error_propagation(path):
-    """The path returns through a `?` on a callee's error (FromResidual::from_residual)."""
-    return any(e['kind'] == 'call' and e['decl'].endswith('FromResidual::from_residual') for e in path.events)
+    """The path returns a callee's error: through `?` (FromResidual::from_residual) or through an explicit
+    `Err(e) => return Err(e)` (possibly converting / wrapping the payload)."""
+    if any(e['kind'] == 'call' and e['decl'].endswith('FromResidual::from_residual') for e in path.events):
+        return True
+    r = path.ret
+    if r is not None and r[0] == 'agg' and r[3] == 'Err' and len(r[5]) == 1:
+        return mentions(r[5][0], lambda x: x[0] == 'fieldv' and x[2] == '0' and x[3] == 'Err' and x[1][0] == 'call')
+    return False
+
+
+def ok_payload_of(path, v):
+    """If v is the Ok payload of the Result some call returned - unwrapped by `?` (also after map_err) or by a `match` -
+    the id of that call, else None."""
+    if not (v[0] == 'fieldv' and v[2] == '0' and v[1][0] == 'call'):
+        return None
+    calls = getattr(path, '_calls', None)
+    if calls is None:
+        calls = path._calls = {e['id']: e for e in path.events if e['kind'] == 'call'}
+    cid = v[1][1]
+    if v[3] == 'Ok':
+        src = cid
+    elif v[3] == 'Continue' and cid in calls and calls[cid]['decl'].endswith('Try::branch') and \
+            calls[cid]['args'] and calls[cid]['args'][0][0] == 'call':
+        src = calls[cid]['args'][0][1]
+    else:
+        return None
+    while src in calls and calls[src]['res'] == 'core::result::Result::map_err' and calls[src]['args'][0][0] == 'call':
+        src = calls[src]['args'][0][1]
+    return src
 
 
 def sh(v, body=None):
